@@ -25,6 +25,9 @@ func getEnrichedPackage(logger *console.Logger, packagePath string, pkg PackageD
 	absolutePackagePath := config.GetPathAbsoluteToWorkspaceRoot(packagePath)
 
 	for _, target := range pkg.Targets {
+		if target == nil {
+			return nil, fmt.Errorf("empty target entry (package file %s)", pkg.SourceFilePath)
+		}
 		var deps []label.TargetLabel
 		// parse labels
 		for _, dep := range target.Dependencies {
@@ -109,6 +112,9 @@ func getEnrichedPackage(logger *console.Logger, packagePath string, pkg PackageD
 	}
 
 	for _, alias := range pkg.Aliases {
+		if alias == nil {
+			return nil, fmt.Errorf("empty alias entry (package file %s)", pkg.SourceFilePath)
+		}
 		actualLabel, err := label.ParseTargetLabel(packagePath, alias.Actual)
 		if err != nil {
 			return nil, err
